@@ -13,7 +13,7 @@ import ast
 
 from ..engine import rule, run_property
 from ..model import Undecided
-from ..cfg import dotted, call_name, is_call, simple_name, unparse, const_value, contains, enclosing
+from ..cfg import same, dotted, call_name, is_call, simple_name, unparse, const_value, contains, enclosing
 from ..flow import Canon, Defs, depends, scoped_defs
 from ..axis import axis_reports
 from ..util import resolve1, origin_path, keyword, returns_of, calls_in, inside, order_key
@@ -57,7 +57,7 @@ def c04a(ctx):
         arg = s.args[0]
         ok = isinstance(arg, ast.Name)      # no slice / filter at the call
         root = _elementwise(arg, defs)
-        ok = ok and is_call(root, 'split_meta_tiles') and unparse(root.args[0]) == 'meta_tile_image' and unparse(root.args[1]) == 'meta_tile.tile_patterns'
+        ok = ok and is_call(root, 'split_meta_tiles') and same(root.args[0], 'meta_tile_image') and same(root.args[1], 'meta_tile.tile_patterns')
         # no definition of the stored name slices or filters
         for v, sel in defs.of(arg.id) if isinstance(arg, ast.Name) else []:
             if isinstance(v, ast.Subscript) or (isinstance(v, ast.ListComp) and any(g.ifs for g in v.generators)) or is_call(v, 'filter'):
@@ -95,7 +95,7 @@ def c04a(ctx):
     for s in stores:
         a = s.args[0]
         tv = unparse(a.generators[0].target) if isinstance(a, ast.ListComp) and len(a.generators) == 1 else '?'
-        ok = ok and isinstance(a, ast.ListComp) and len(a.generators) == 1 and unparse(a.generators[0].iter) == 'tiles' and \
+        ok = ok and isinstance(a, ast.ListComp) and len(a.generators) == 1 and same(a.generators[0].iter, 'tiles') and \
             [unparse(i) for i in a.generators[0].ifs] == [tv + '.cacheable'] and unparse(a.elt) == tv
     ctx.check(ok, 'TileCreator._create_bulk_meta_tile:stores-all-cacheable', 'every collected tile that is cacheable is stored', fb,
               fail='the bulk creator does not store all cacheable tiles it fetched')
@@ -104,7 +104,7 @@ def c04a(ctx):
     ap = [x for x in fb.walk_all() if isinstance(x, ast.Call) and isinstance(x.func, ast.Attribute) and x.func.attr == 'append' and
           any(x is y for l in fb.walk_all() if isinstance(l, ast.For) and im and l.iter is im[0] for y in ast.walk(l))]
     coords = resolve1(im[0].args[1], fbdefs) if im and len(im[0].args) > 1 else None
-    ok = bool(ap) and bool(im) and isinstance(coords, ast.ListComp) and unparse(coords.generators[0].iter) == 'meta_tile.tiles'
+    ok = bool(ap) and bool(im) and isinstance(coords, ast.ListComp) and same(coords.generators[0].iter, 'meta_tile.tiles')
     ctx.check(ok, 'TileCreator._create_bulk_meta_tile:all-tiles-queried', 'every tile of the meta tile is queried', fb)
 
 
@@ -128,7 +128,7 @@ def c04b(ctx):
                 if x.func.attr != '_create_threaded':      # maps the creator passed as argument (checked separately)
                     out |= leaves(x.func.attr, seen + (mname,))
                 for a in x.args:
-                    if isinstance(a, ast.Attribute) and unparse(a.value) == 'self' and a.attr.startswith('_create'):
+                    if isinstance(a, ast.Attribute) and same(a.value, 'self') and a.attr.startswith('_create'):
                         out |= leaves(a.attr, seen + (mname,))
         return out or {mname}
     # what create_tiles returns, in closed form: the result of one creator method per strategy (or [] without sources)
@@ -145,10 +145,10 @@ def c04b(ctx):
         ctx.check(lv <= COVERED_CREATORS, 'TileCreator.create_tiles:%s' % b.func.attr,
                   'strategy %s ends in %s (locked fetch-split-store creators)' % (b.func.attr, sorted(lv)), fn, b,
                   fail='strategy %s reaches %s: a creation path outside the locked creators covered by C08.a / C04.a' % (b.func.attr, sorted(lv - COVERED_CREATORS)))
-    ok = bool(rvals) and all(isinstance(v, ast.Call) or unparse(v) == '[]' or (isinstance(v, ast.Name) and v.id in multi) for v in rvals)
+    ok = bool(rvals) and all(isinstance(v, ast.Call) or same(v, '[]') or (isinstance(v, ast.Name) and v.id in multi) for v in rvals)
     ctx.check(ok, 'TileCreator.create_tiles:returns-created', 'create_tiles returns what the chosen creator produced (or nothing without sources)', fn)
     th = ctx.fn(TILE + ':TileCreator._create_threaded')
-    ok = any(is_call(x, 'imap') and unparse(x.args[0]) == 'create_func' and unparse(x.args[1]) == 'tiles' for x in th.walk())
+    ok = any(is_call(x, 'imap') and same(x.args[0], 'create_func') and same(x.args[1], 'tiles') for x in th.walk())
     ctx.check(ok, 'TileCreator._create_threaded:same-creator', 'the threaded strategy maps the same creator function over the tiles', th)
 
 
@@ -160,7 +160,7 @@ def c04c(ctx):
     ok = len(rets) == 1 and isinstance(rets[0].value, ast.Tuple) and len(rets[0].value.elts) == 2
     if ok:
         gs = [v for v, sel in defs.of('grid_size')]
-        ok = len(gs) == 1 and unparse(gs[0]) == 'self.grid.grid_sizes[level]'
+        ok = len(gs) == 1 and same(gs[0], 'self.grid.grid_sizes[level]')
         for k, e in enumerate(rets[0].value.elts):
             ok = ok and is_call(e, 'min') and sorted(unparse(a) for a in e.args) == sorted(['self.meta_size[%d]' % k, 'grid_size[%d]' % k])
     ctx.check(ok, 'MetaGrid._meta_size:elementwise-min', '_meta_size(level) = (min(meta_size[0], grid_sizes[level][0]), min(meta_size[1], grid_sizes[level][1]))', ms,
@@ -171,7 +171,7 @@ def c04c(ctx):
         if not q.startswith(G + ':MetaGrid.'):
             continue
         for x in f.walk():
-            if isinstance(x, ast.Attribute) and x.attr == 'meta_size' and unparse(x.value) == 'self' and isinstance(x.ctx, ast.Load):
+            if isinstance(x, ast.Attribute) and x.attr == 'meta_size' and same(x.value, 'self') and isinstance(x.ctx, ast.Load):
                 readers.append(f.short)
     ok = set(readers) <= {'MetaGrid._meta_size'}
     ctx.check(ok, 'MetaGrid:meta-size-only-via-_meta_size', 'the configured meta size is only read by _meta_size (all geometry uses the level-limited size)', (G, ms.node.lineno),
@@ -271,7 +271,7 @@ def c04g(ctx):
     calls_own = [x for x in run.walk() if is_call(x, 'base_config')]
     ctx.check(not calls_own, 'ThreadWorker.run:no-own-lookup', 'the worker thread itself never asks base_config()', run,
               fail='base_config() is evaluated in the worker thread, whose configuration stack is empty: tasks run with the default configuration')
-    sets = [s for s in init.walk() if isinstance(s, ast.Assign) and any(isinstance(t, ast.Attribute) and t.attr == attr and unparse(t.value) == 'self'
+    sets = [s for s in init.walk() if isinstance(s, ast.Assign) and any(isinstance(t, ast.Attribute) and t.attr == attr and same(t.value, 'self')
                                                                           for t in s.targets)] if attr else []
     ok = len(sets) == 1 and is_call(init.canon.expr(sets[0].value), 'base_config')
     ctx.check(ok, 'ThreadWorker.__init__:captures-config', 'the configuration is captured with base_config() by the creating thread (in __init__)', init,
